@@ -334,6 +334,20 @@ def run(ctx):
             r5.fail(f"select itemset[{desc}]", f"evaluates ({r.exc_name}{r.exc_args})", bx.loc())
             continue
         r5.check(got == want, f"select itemset[{desc}]", f"nodeset {want[0]} with refs {want[1]}", bx.loc(), why_fail=repr(got))
+    # the parameters cell: names are case-insensitive; the values that name something of the author's (a file column for
+    # value / label, a question for seed) keep their case, flag values are normalised
+    pg = ctx.func("pyxform.validators.pyxform.parameters_generic:parse", "C09.R5")
+    for raw, want_p in (("value=ID, label=Title", {"value": "ID", "label": "Title"}), ("Value=ID LABEL=Title", {"value": "ID", "label": "Title"}),
+                        ("VALUE=code;Label=Name_EN", {"value": "code", "label": "Name_EN"}), ("randomize=TRUE", {"randomize": "true"}),
+                        ("randomize=true, seed=${Seed_Q}", {"randomize": "true", "seed": "${Seed_Q}"}), ("Randomize=True SEED=${Seed_Q}", {"randomize": "true", "seed": "${Seed_Q}"}),
+                        ("randomize=true;seed=42", {"randomize": "true", "seed": "42"}), ("randomize=false", {"randomize": "false"})):
+        itp = ctx.interp("C09.R5")
+        itp.reset([])
+        try:
+            got_p = itp.call_function(pg, [raw], {}, None, pg.node)
+        except Raised as e:
+            got_p = f"raises {e.exc_name}"
+        r5.check(got_p == want_p, f"parameters[{raw!r}]", f"-> {want_p}", pg.loc(), why_fail=f"got {got_p!r}")
     # external (input) select: query on its own list with its own filter
     iq = repo.cls("pyxform.question:InputQuestion")
     ibx = iq.methods["build_xml"]
